@@ -41,7 +41,8 @@ out.append('For every property fresh sub-agents, given only the property text an
  '`/repo` HEAD with the patch applied. Where a change was missed the check was strengthened (generator,\n'
  'fault mode or history family — never by special-casing the seeded input) until it was reported; those rows\n'
  'say so. Generated from `seeded/*/meta.json`.\n\n'
- 'Five rounds of three changes per property were run (each later round was told the earlier ideas and had to\n'
+ 'Five rounds of three changes per property were run, and a sixth of two changes for eight properties (C02, C06,\n'
+ 'C12, C13, C16, C17, C19, C20; seeds 16 and 17; 4 of its 16 missed at first, one judged not a violation) (each later round was told the earlier ideas and had to\n'
  'use a different mechanism). The share missed at first did not fall from round to round (about a third in\n'
  'round 1, about half to two thirds in rounds 2 to 5): each round found input shapes, fault modes or histories the\n'
  'workloads did not yet contain, which is the honest measure of what a finite workload reaches. After the last\n'
@@ -50,8 +51,8 @@ out.append('For every property fresh sub-agents, given only the property text an
  'VERIF_SEED=3 (`tools/seed_sweep.sh`): all are reported at both seeds (`detected_at_verif_seed` in meta.json),\n'
  'with these qualifications: C05-9 needs 10 s of wall-clock time and is in the thorough tier only; C01-15 and\n'
  'C08-9 break a clause that belongs to another property\'s statement and are reported by that check (C03, C09;\n'
- '`check_property` in meta.json); C13-14 was judged not to violate C13 as stated and is deliberately not\n'
- 'reported (its row says why). Detections that held at one PRNG seed only (C09-2, C08-9, C09-6, C10-15) were\n'
+ '`check_property` in meta.json); C13-14 and C20-16 were judged not to violate C13 / C20 as stated and are deliberately not\n'
+ 'reported (their rows say why). Detections that held at one PRNG seed only (C09-2, C08-9, C09-6, C10-15) were\n'
  'turned into fixed shares of every run.\n')
 out.append('| seed | needs, in order to manifest | reported by |\n|---|---|---|')
 def key(p):
